@@ -42,6 +42,9 @@ func errf(code, f string, a ...any) *SQLError {
 
 var compositeTypes = map[string][]string{"volumes": {"inputs", "outputs"}, "block": {"hash", "max_log_id", "ledger"}}
 
+// declared field types of composite types (from `create type t as (...)`): needed where PostgreSQL's static typing is observable
+var compositeFieldTypes = map[string]map[string]string{}
+
 // ---------------------------------------------------------------- timestamps
 const tsLayoutOut = "2006-01-02 15:04:05.999999"
 
